@@ -1,7 +1,8 @@
 (* C13 - Client and server agree on every request and response they exchange.
-   Modelled: 23 request formats (see Model/Wire.v); the journal encoding is covered by C11 (C11_roundtrip,
+   Modelled: 23 request formats (Model/Wire.v) and the SendMessages request with its partitioning, messages and
+   headers of every kind (Model/WireMsg.v); the journal encoding is covered by C11 (C11_roundtrip,
    C11_accepts_only_journals).  Everything else is exercised end to end by the correspondence check only. *)
-From IggyV Require Import Base.Tactics Base.ListX Base.LE Model.Wire Proofs.WireProofs.
+From IggyV Require Import Base.Tactics Base.ListX Base.LE Model.Wire Model.WireMsg Proofs.WireProofs Proofs.WireMsgProofs.
 Open Scope N_scope.
 
 (* every well-formed request - all identifier kinds, optional fields absent or present, every polling kind, names and
@@ -21,7 +22,40 @@ Proof. exact pconsumer_enc. Qed.
 Theorem C13_decoder_total : forall code bs, dec_req code bs = None \/ exists q, dec_req code bs = Some q.
 Proof. intros code bs. destruct (dec_req code bs) as [q|]; [right; exists q; reflexivity|left; reflexivity]. Qed.
 
+(* SendMessages: every well-formed request - both identifier kinds, the three partitioning kinds with values of 0..255 bytes, any
+   number of messages, each with any number of headers of any of the 15 kinds whose keys and values have 1..255 bytes, payloads of
+   1..2^32-1 bytes - is decoded to the same request *)
+Theorem C13_send_roundtrip : forall q, wf_send q -> dec_send (enc_send q) = Some q.
+Proof. exact send_roundtrip. Qed.
+
+(* the header block on its own (it is also what the server stores with a message and returns in polls) *)
+Theorem C13_headers_roundtrip : forall hs, Forall wf_hdr hs -> dec_hdrs (enc_hdrs hs) = Some hs.
+Proof. exact dec_hdrs_enc. Qed.
+
+(* the hypotheses are met by a request with a key and a value at the 255-byte boundary *)
+Definition ex_hdr : hdr := {| hk := repeat "a"%byte 255; hkind := 15; hv := repeat x00 255 |}.
+Definition ex_send : sendreq :=
+  {| sq_stream := IdNum 1; sq_topic := IdStr (repeat "t"%byte 255); sq_pkind := 3; sq_pval := repeat xff 255;
+     sq_msgs := [ {| mid := 7; mhdrs := [ex_hdr; {| hk := ["k"%byte]; hkind := 1; hv := [x01] |}]; mpay := [x2a] |};
+                  {| mid := 8; mhdrs := []; mpay := repeat x00 300 |} ] |}.
+Example C13_send_nonvacuous : wf_send ex_send /\ dec_send (enc_send ex_send) = Some ex_send.
+Proof.
+  split; [|vm_compute; reflexivity].
+  unfold wf_send, ex_send. cbn [sq_stream sq_topic sq_pkind sq_pval sq_msgs].
+  split; [vm_compute; reflexivity|]. split; [vm_compute; split; discriminate|]. split; [lia|]. split; [vm_compute; discriminate|].
+  split; [discriminate|].
+  repeat (apply Forall_cons || apply Forall_nil); unfold wf_msg; cbn [mid mhdrs mpay].
+  - split; [vm_compute; reflexivity|].
+    split; [repeat (apply Forall_cons || apply Forall_nil); unfold wf_hdr; vm_compute; repeat split; discriminate|].
+    split; [vm_compute; reflexivity|]. vm_compute. split; [discriminate|reflexivity].
+  - split; [vm_compute; reflexivity|]. split; [apply Forall_nil|].
+    split; [vm_compute; reflexivity|]. vm_compute. split; [discriminate|reflexivity].
+Qed.
+
 Print Assumptions C13_request_roundtrip.
 Print Assumptions C13_identifier_roundtrip.
 Print Assumptions C13_consumer_roundtrip.
 Print Assumptions C13_decoder_total.
+Print Assumptions C13_send_roundtrip.
+Print Assumptions C13_headers_roundtrip.
+Print Assumptions C13_send_nonvacuous.
